@@ -33,7 +33,7 @@ def fault_key(f):
 
 
 def case_key(c):
-    return "%s/v%d/%s" % (c["rpc"], c["variant"], sorted(fault_key(f) for f in c["faults"]))
+    return "%s/v%d%s/%s" % (c["rpc"], c["variant"], "" if c.get("samekey", True) else "dk", sorted(fault_key(f) for f in c["faults"]))
 
 
 def cases_from_edges(edges, rng):
@@ -50,7 +50,7 @@ def cases_from_edges(edges, rng):
             raise vlib.Infra("path does not reach a terminal state: %s" % json.dumps(p[-1])[:300])
         faults = [{"msg": f["msg"], "field": f["field"], "how": f["how"], "k": f["k"]} for f in st["plan"]]
         faults.sort(key=fault_key)
-        c = {"rpc": st["rpc"], "variant": st["variant"], "faults": faults, "must": st["must"],
+        c = {"rpc": st["rpc"], "variant": st["variant"], "samekey": st["samekey"], "faults": faults, "must": st["must"],
              "model": last["outcome"], "info": st["rpc"] in INFORMATIONAL, "unservable": st["rpc"] in UNSERVABLE,
              "classes": {fault_key(f): f["class"] for f in st["classes"]}}
         cases[case_key(c)] = c
@@ -135,7 +135,7 @@ def trace_cfg(wd, cfg_edges):
 
 
 def event_key(ev):
-    return case_key({"rpc": ev["rpc"], "variant": ev["variant"], "faults": ev["faults"]})
+    return case_key({"rpc": ev["rpc"], "variant": ev["variant"], "samekey": ev.get("samekey", True), "faults": ev["faults"]})
 
 
 def leg_t(wd, rr, verdict, tag="t", flagged=()):
@@ -170,7 +170,7 @@ def leg_t(wd, rr, verdict, tag="t", flagged=()):
             log("  T: TLC rejects a recorded outcome the harness did not flag: %s" % json.dumps(ev)[:300])
         verdict.add({"sig": "renter:%s:%s:%s" % (ev["rpc"], fs, kind),
                      "desc": "TLC rejects the recorded outcome %s (%s)" % (json.dumps(ev), r.violated or "no RenterTrace action explains it"),
-                     "replay": {"kind": "case", "case": {"rpc": ev["rpc"], "variant": ev["variant"], "faults": ev["faults"],
+                     "replay": {"kind": "case", "case": {"rpc": ev["rpc"], "variant": ev["variant"], "samekey": ev.get("samekey", True), "faults": ev["faults"],
                                                          "info": ev["rpc"] in INFORMATIONAL, "unservable": ev["rpc"] in UNSERVABLE,
                                                          "classes": {}, "must": "any"}}})
         keep = [l for i, l in enumerate(lines) if i != idx and event_key(json.loads(l)) not in flagged]
